@@ -2,6 +2,7 @@
 """Evaluate one independently written breaking change and file it under /verif/seeded/.
 
     tools/seed_eval.py <seed-dir> <N> <PROPERTY> <name> [--checks C01,C02] [--tier quick|thorough]
+    tools/seed_eval.py seeded/<PROPERTY>-<name> 0 <PROPERTY> <name> [--checks ..]      (re-evaluate a filed change)
 
 <seed-dir>/changeN.diff, demoN.py, metaN.txt were written by a sub-agent in its own scratch
 worktree from the property text alone.  This tool confirms on scratch copies of /repo's
@@ -43,6 +44,14 @@ def main(argv):
     diff = os.path.join(src, f'change{n}.diff')
     demo = os.path.join(src, f'demo{n}.py')
     meta_txt = open(os.path.join(src, f'meta{n}.txt')).read() if os.path.exists(os.path.join(src, f'meta{n}.txt')) else ''
+    if os.path.exists(os.path.join(src, 'patch.diff')):
+        # re-evaluation of a change already filed under /verif/seeded/
+        import tempfile as _t
+        keep = _t.mkdtemp(prefix='vseed-src-', dir='/dev/shm')
+        for f in ('patch.diff', 'demo.py'):
+            shutil.copy(os.path.join(src, f), keep)
+        diff, demo = os.path.join(keep, 'patch.diff'), os.path.join(keep, 'demo.py')
+        meta_txt = json.load(open(os.path.join(src, 'meta.json'))).get('what_it_needs_to_manifest', '')
     tmp = tempfile.mkdtemp(prefix='vseed-', dir='/dev/shm')
     ran = []
     try:
@@ -98,6 +107,8 @@ def main(argv):
         json.dump(meta, open(mp, 'w'), indent=1, ensure_ascii=False)
     finally:
         shutil.rmtree(tmp, ignore_errors=True)
+        if 'keep' in locals():
+            shutil.rmtree(keep, ignore_errors=True)
     return 0
 
 
